@@ -72,4 +72,38 @@ META = {
                         "later reuse of a window already handed to a hook is not checked (the statement does not require it)", "sampling, not proof"],
         "components": {"real": REAL_CLIENT, "stub": STUB_CLIENT},
     },
+    "C15": {
+        "level": "exploration",
+        "budget": {"quick": 40, "thorough": 600},
+        "rule": ("each run = the real server.Server.Serve + ModbusTCPAssembler on a simulated listener, handler = reference device, 1-3 raw client tasks "
+                 "each sending 1-6 valid request frames (10 functions, library encoders) lock-step or pipelined, the client's byte stream cut by one of six cut plans "
+                 "(whole frames, one cut inside a header, one cut inside a body, byte-by-byte, random, several frames per write) with pauses up to several server read "
+                 "deadlines, link latency, and the server's Reads themselves cut by the tape; plus a twin run of the same request lists arriving whole and lock-step. "
+                 "Checked: exactly one reply per request, in order, echoing the transaction id (both runs); reply stream byte-identical to the whole-arrival run; "
+                 "normal replies equal the reference device's; at every server write, bytes written <= replies due for the requests completely read so far. "
+                 "non-trivial = some cut other than frame boundaries, server-side cuts, or more than one connection; distinct = distinct schedule fingerprint."),
+        "assumptions": ["requests the library's own request parsers refuse (e.g. 126-2000 coils) are answered with an exception consistently and are not charged to C15",
+                        "quiescence = 1 simulated second without the expected reply, then 200 ms of silence to catch extra replies", "sampling, not proof"],
+        "components": {"real": ["server.Server.Serve accept loop and connection loop (server/server.go)", "server.ModbusTCPAssembler (server/modbus.go)",
+                                "packet.LooksLikeModbusTCP, packet.ParseTCPRequest and per-function request parsers, ErrorResponseTCP.Bytes"],
+                       "stub": ["net.Listener / net.Conn (simulated, tape-cut reads, latency)", "ModbusHandler (reference device written from the specification)",
+                                "clients (raw byte-stream tasks)", "clock (synctest)", "goroutine choice (baton scheduler)"]},
+    },
+    "C16": {
+        "level": "fault_enumeration",
+        "budget": {"quick": 40, "thorough": 600},
+        "rule": ("each run = real server + assembler, 1-3 lock-step connections with whole-frame arrival; the subject connection carries 1-5 requests drawn from "
+                 "{valid, unsupported function 1..127, out-of-range quantity/value, body shorter than the function needs with a consistent length field, byte count "
+                 "disagreeing with length / trailing bytes} x handler behaviour {device answers, packet.NewErrorParseTCP(code), fully filled *ErrorParseTCP, plain error, "
+                 "panic, slow}; (class x handler x function) stratified. Three executions per run: all connections; without the subject connection (bystanders must receive "
+                 "the same bytes); one subject frame alone on a fresh connection (same reply as inside the sequence; the device is stateless here so replies are a pure function "
+                 "of the request). Checked per reply: one well-formed ADU, tid and unit echo, function or function|0x80 with 9 bytes, code 01 for unsupported function, 03 for "
+                 "out-of-range when the library or the device (not a failing handler) produced it. distinct = distinct fingerprint; every run is non-trivial."),
+        "assumptions": ["which requests deserve a normal response is not C16's business: a legal request refused with a well-formed exception passes",
+                        "a panicking handler is expected to cost its own connection (closed, no reply); only the process and the other connections must be unaffected",
+                        "process crashes are detected by the driver (worker exit) and confirmed by re-running the run in isolation", "sampling, not proof"],
+        "components": {"real": ["server.Server.Serve accept loop and connection loop incl. per-connection recover", "server.ModbusTCPAssembler",
+                                "packet request parsers and their ~40 error-construction sites, ErrorResponseTCP.Bytes, LooksLikeModbusTCP"],
+                       "stub": ["net.Listener / net.Conn", "ModbusHandler (reference device + injected handler faults)", "clients", "clock", "goroutine choice"]},
+    },
 }
